@@ -29,7 +29,7 @@ type Mem struct {
 	OpenErr  func(name string) error
 	// WriteHook, if set, is called (without the lock) before each WriteAt takes effect; it may block.
 	WriteHook func(name string, off int64, p []byte)
-	// AfterWrite, if set, is called after the bytes are in place.
+	// AfterWrite, if set, is called after the bytes are in place, under the storage lock (must not call back into Mem).
 	AfterWrite func(name string, off int64, p []byte)
 	// ReadHook, if set, is called before each ReadAt (may sleep).
 	ReadHook func()
@@ -149,10 +149,13 @@ func (f *MemFile) WriteAt(p []byte, off int64) (int, error) {
 		return 0, fmt.Errorf("memfile %q: write [%d,%d) outside file of %d bytes", f.Name, off, off+int64(len(p)), len(f.Data))
 	}
 	copy(f.Data[off:], p)
-	f.m.mu.Unlock()
+	// AfterWrite runs inside the critical section: a reader that can see these bytes must come after the
+	// observer's record of them (otherwise "the client announced a piece before it was on storage" could be
+	// reported for a piece that a concurrent verification pass read between the copy and the record).
 	if h := f.m.AfterWrite; h != nil {
 		h(f.Name, off, p)
 	}
+	f.m.mu.Unlock()
 	return len(p), nil
 }
 
